@@ -516,6 +516,16 @@ def proof_coverage(res, theorems, modules, extra_obligations=0, extra_discharged
     return problems
 
 
+def helper_crash(res, what, stderr, replay):
+    """a helper interpreter (fresh process for -O, other hash seeds, other import orders) ended abnormally: a failure of
+    the library there is a violation, anything else (import path, memory, a bug of the helper) a harness error"""
+    repo = os.path.realpath(REPO)
+    if repo + os.sep in (stderr or '') or os.path.join('pyModelChecking', '') in (stderr or ''):
+        res.violation('%s: %s' % (what, (stderr or '')[-300:]), replay)
+    else:
+        raise HarnessError('%s (not a failure inside the package): %s' % (what, (stderr or '')[-600:]))
+
+
 def quiet():
     """silence third-party warnings around a library call — except in the warnings-as-errors pass, where a warning
     raised inside the library must surface as the exception it becomes"""
